@@ -253,7 +253,8 @@ theorem good_add_any (p : Nat) : Good (rwAddPeer p) (fun _ => True) where
     | true => rw [rwAddPeer_present h]
     | false => rw [rwAddPeer_absent h]
 
-theorem planOrc_leader (self lead : Nat) (plan : List PT) (hx : plan.contains .x = false) (k : Nat) :
+theorem planOrc_leader (self lead : Nat) (plan : List PT) (hx : plan.contains .x = false) (hp : plan.contains .p = false)
+    (k : Nat) :
     (planOrc self lead plan k).leader = some lead := by
   unfold planOrc
   cases h : plan[k]? with
@@ -266,6 +267,10 @@ theorem planOrc_leader (self lead : Nat) (plan : List PT) (hx : plan.contains .x
       have : PT.x ∈ plan := List.mem_of_getElem? h
       have : plan.contains .x = true := by simpa using this
       rw [hx] at this; cases this
+    | p =>
+      have : PT.p ∈ plan := List.mem_of_getElem? h
+      have : plan.contains .p = true := by simpa using this
+      rw [hp] at this; cases this
 
 theorem planOrc_passes (self lead : Nat) (plan : List PT) : (planOrc self lead plan plan.length).ok = true := by
   unfold planOrc
@@ -407,12 +412,10 @@ theorem fStep_add {retries : Nat} {init : List Nat} {s : FSt} {log log' : List E
     ∀ c ∈ fCheckOp retries init s (.add a j lead plan res fwd loc has), c.2 = true := by
   unfold fStep at h
   obtain ⟨orc, ho, hc⟩ := fCallAny_some _ h
-  have ho' : orc = planOrc a lead plan := by simpa using ho
-  subst ho'
   obtain ⟨hp, hres, hlog, hhas⟩ := fCall_some hc
-  have hlog' : log' = (consAddPeer a retries (planOrc a lead plan) log j).2 := hlog
-  have hres' : (consAddPeer a retries (planOrc a lead plan) log j).1 = res := hres
-  have honce := add_once_if_absent' a retries (planOrc a lead plan) log j
+  have hlog' : log' = (consAddPeer a retries orc log j).2 := hlog
+  have hres' : (consAddPeer a retries orc log j).1 = res := hres
+  have honce := add_once_if_absent' a retries orc log j
   rw [← hlog'] at honce
   constructor
   · -- bookkeeping
@@ -447,7 +450,7 @@ theorem fStep_add {retries : Nat} {init : List Nat} {s : FSt} {log log' : List E
       | ok =>
         right
         rw [hr] at hres'
-        have := add_effect' a retries (planOrc a lead plan) log j hres'
+        have := add_effect' a retries orc log j hres'
         rw [← hlog'] at this
         rw [hhas]; exact modelHas_all.2 this
     · -- failed_not_split
@@ -470,15 +473,23 @@ theorem fStep_add {retries : Nat} {init : List Nat} {s : FSt} {log log' : List E
         simp only [Bool.and_eq_true] at hprem
         obtain ⟨⟨_, hj⟩, hpass⟩ := hprem
         rw [contains_iff_cfgHas R] at hj
+        have hpass0 := hpass
+        unfold planPasses at hpass0
+        simp only [Bool.and_eq_true, Bool.not_eq_true'] at hpass0
+        have ho' : orc = planOrc a lead plan := by
+          have hnp' : PT.p ∉ plan := by simpa using hpass0.1.2
+          unfold pExtra at ho
+          simpa [hnp'] using ho
+        subst ho'
         have hok : (consAddPeer a retries (planOrc a lead plan) log j).1 = .ok := by
           unfold planPasses at hpass
           simp only [Bool.and_eq_true, Bool.not_eq_true'] at hpass
-          obtain ⟨hnx, hpass⟩ := hpass
+          obtain ⟨⟨hnx, hnp⟩, hpass⟩ := hpass
           by_cases hal : (lead == a) = true
           · have : lead = a := by simpa using hal
             subst this
-            exact consLoop_leading (planOrc_leader _ _ _ hnx 0) (fun f => by rw [rwAddPeer_present hj])
-          · refine consLoop_answered (good_add_present j) (planOrc_leader a lead plan hnx) hj (by simpa using hal) ?_
+            exact consLoop_leading (planOrc_leader _ _ _ hnx hnp 0) (fun f => by rw [rwAddPeer_present hj])
+          · refine consLoop_answered (good_add_present j) (planOrc_leader a lead plan hnx hnp) hj (by simpa using hal) ?_
             simp only [Bool.or_eq_true, beq_iff_eq, decide_eq_true_eq] at hpass
             rcases hpass with hpass | hpass
             · exact absurd (by simp [hpass]) hal
@@ -568,19 +579,23 @@ theorem fStep_rm {retries : Nat} {init : List Nat} {s : FSt} {log log' : List En
           | false => rfl
           | true => have : j = lead := by simpa using hx
                     subst this; rw [hlead] at hj; cases hj
+        have hpass0 := hpass
+        unfold planPasses at hpass0
+        simp only [Bool.and_eq_true, Bool.not_eq_true'] at hpass0
         have ho' : orc = planOrc a lead plan := by
-          unfold rmOrcs at ho
-          simpa [haj, hlj] using ho
+          have hnp' : PT.p ∉ plan := by simpa using hpass0.1.2
+          unfold rmOrcs pExtra at ho
+          simpa [haj, hlj, hnp'] using ho
         subst ho'
         have hok : (consRmPeer a retries (planOrc a lead plan) log j).1 = .ok := by
           unfold planPasses at hpass
           simp only [Bool.and_eq_true, Bool.not_eq_true'] at hpass
-          obtain ⟨hnx, hpass⟩ := hpass
+          obtain ⟨⟨hnx, hnp⟩, hpass⟩ := hpass
           by_cases hal : (lead == a) = true
           · have : lead = a := by simpa using hal
             subst this
-            exact consLoop_leading (planOrc_leader _ _ _ hnx 0) (fun f => by rw [rwRemovePeer_absent hj])
-          · refine consLoop_answered (good_rm_absent j) (planOrc_leader a lead plan hnx) hj (by simpa using hal) ?_
+            exact consLoop_leading (planOrc_leader _ _ _ hnx hnp 0) (fun f => by rw [rwRemovePeer_absent hj])
+          · refine consLoop_answered (good_rm_absent j) (planOrc_leader a lead plan hnx hnp) hj (by simpa using hal) ?_
             simp only [Bool.or_eq_true, beq_iff_eq, decide_eq_true_eq] at hpass
             rcases hpass with hpass | hpass
             · exact absurd (by simp [hpass]) hal
